@@ -133,9 +133,12 @@ HintLists == { <<d>> : d \in Deleg } \cup { <<d, e>> : d \in Deleg, e \in DelegF
                     ELSE {})
 FormsHint == { [BaseI EXCEPT !.fh = [i \in 1..Len(h) |-> NameOfAt(i, h[i].n)], !.rep.fh = [i \in 1..Len(h) |-> h[i].f]] : h \in HintLists }
 SgKl(s, kl) == [s EXCEPT !.haskl = TRUE, !.kl = kl]
-FormsKl == { [WithPayload(BaseOf(k), 3) EXCEPT !.sg = SgKl(s, NameOf(n)), !.rep.kl = f] :
-               k \in Kinds, f \in NameForms, n \in Counts,
-               s \in {SgHmac, SgSyn(8, 5)} \cup (IF Thorough THEN {SgEc(71), SgRsa, SgEd} ELSE {}) }
+\* (an EMPTY key name only with the synthetic signer: the library's *Checker validators refuse a KeyLocator whose Name has no
+\* components - "which verifier matches a key without a name" is C02's subject, not a representation question)
+KlSigners == {SgSyn(8, 5), SgHmac} \cup (IF Thorough THEN {SgEc(71), SgRsa, SgEd} ELSE {})
+FormsKl == { c \in { [WithPayload(BaseOf(k), 3) EXCEPT !.sg = SgKl(s, NameOf(n)), !.rep.kl = f] :
+                       k \in Kinds, f \in NameForms, n \in Counts, s \in KlSigners } :
+               Len(c.sg.kl) > 0 \/ c.sg.kind = "syn" }
 FormsBin == { [BaseD EXCEPT !.meta = Meta(1, 0, 3), !.content = 5, !.rep.fbi = x, !.rep.pay = y, !.sg = s] :
                 x \in BinForms, y \in BinForms, s \in {NoSg, SgHmac} }
             \cup { [BaseI EXCEPT !.app = 5, !.rep.pay = y] : y \in BinForms }
